@@ -200,6 +200,9 @@ func (st *c11State) pristineMaps() (map[string]reflect.Type, map[string]string) 
 	for k, v := range st.nm0 {
 		nm[k] = v
 	}
+	if st.nmNil {
+		return tm, nil // the caller passed no name map at all
+	}
 	return tm, nm
 }
 
@@ -230,6 +233,7 @@ type c11State struct {
 	lastVal    interface{}         // the value drawn last
 	lastClass  string              // wire name of the class of the struct value drawn last
 	badKind    int                 // kind of the unrepresentable value the history encoded last (-1: none)
+	nmNil      bool                // the caller constructed the instance without a name map
 	earlier    []c11Earlier
 	opLog      []string
 	aborted    int
@@ -737,6 +741,24 @@ func runC11(ch *Choices, cfg *RunCfg) (o *Outcome) {
 		o.Probes["caller's type map with classes registered through pointer types"]++
 	}
 	st := &c11State{o: o, ch: ch, g: NewGen(ch, c11Domain()), pair: pair, badKind: -1}
+	switch ch.Pick([]int{80, 12, 8}, "nm.variant") {
+	case 1:
+		// an incomplete name map: a caller that registered only some of its types (the encoder falls back
+		// to the Go type names and may fill the map in: the "maps unchanged" digest does not apply)
+		salt := ch.Salt("nm.salt")
+		for _, k := range sortedNameKeys() {
+			if mix64(hashString(k)^salt)%3 == 0 {
+				delete(nm, k)
+			}
+		}
+		st.incomplete = true
+		o.Probes["caller's name map incomplete"]++
+	case 2:
+		nm = nil
+		st.nmNil = true
+		st.incomplete = true
+		o.Probes["caller's name map nil"]++
+	}
 	st.in = c11New(pair, tm, nm)
 	st.tmDigest = mapsDigest(tm, nm)
 	st.tm0, st.nm0 = map[string]reflect.Type{}, map[string]string{}
@@ -790,7 +812,7 @@ func runC11(ch *Choices, cfg *RunCfg) (o *Outcome) {
 					o.fail("c11/probe-differs", "Encode/ToBytes", "after WriteTo(%s) aborted by %s at Write #%d of %d, Encode(%s) returned {%s} on the used instance but {%s} on a fresh one",
 						clip(describe(v), 80), kind, k, ctl.Calls, clip(describe(pv), 80), used.String(), fresh.String())
 				}
-				if d := mapsDigest(tm, nm); d != st.tmDigest {
+				if d := mapsDigest(tm, nm); d != st.tmDigest && !st.incomplete {
 					o.fail("c11/input-mutated", "maps", "an aborted WriteTo modified the caller's complete maps: %s", firstDiff(st.tmDigest, d))
 				}
 			}
@@ -908,7 +930,7 @@ func runC11(ch *Choices, cfg *RunCfg) (o *Outcome) {
 			used := c11Probe(in, pDecode, nil, pb)
 			ftm, fnm := st.pristineMaps()
 			fresh := c11Probe(c11New(pair, ftm, fnm), pDecode, nil, pb)
-			if d := mapsDigest(tm, nm); d != st.tmDigest {
+			if d := mapsDigest(tm, nm); d != st.tmDigest && !st.incomplete {
 				o.fail("c11/input-mutated", "maps", "a decode of a cut stream or the following probe modified the caller's complete maps: %s", firstDiff(st.tmDigest, d))
 			}
 			o.Evals++
